@@ -59,6 +59,14 @@ def obligations(tier, seed=0):
                        ('float', [('inf', 'inf'), ('-inf', 'ninf'), ('nan', 'nan')]), ('convert', [('Infinity', 'inf'), ('-Infinity', 'ninf'), ('NaN', 'nan')])):
         for t, k in table:
             obs.append(('checks.fam_cmp:special_encoding', dict(src=src, text=t, kind=k)))
+    # integer powers of complex numbers with special parts (rotation branch of purely imaginary bases, infinities, nan)
+    for re_, im_ in (('zero', 'inf'), ('zero', 'ninf'), ('zero', 'nan'), ('inf', 'zero'), ('ninf', 'zero'), ('inf', 'inf'), ('nan', 'zero'),
+                     ('zero', 'fin'), ('fin', 'zero'), ('zero', 'zero'), ('ninf', 'inf'), ('nan', 'nan')):
+        for n in ((-3, -2, -1, 0, 1, 2, 3, 4, 5, 6, 7) if tier == 'quick' else range(-9, 14)):
+            obs.append(('checks.fam_mpc:cpow_int_special', dict(re=re_, im=im_, n=n, prec=10, rnd='n')))
+            if tier == 'thorough':
+                for rnd in 'fcdu':
+                    obs.append(('checks.fam_mpc:cpow_int_special', dict(re=re_, im=im_, n=n, prec=10, rnd=rnd)))
     try:
         from checks import c01_extra
         obs += c01_extra.obligations(tier, seed)
